@@ -3,6 +3,7 @@
    returns one integer list per operation, in the same canonical form the Go harness
    prints for the implementation. *)
 From Minter Require Import Base Consts Pool Float Orders Govern Persist PersistGen Rewards Ledger LedgerRun RLP.
+From Minter Require RewardRule.
 Open Scope Z_scope.
 
 Definition enc1 (z : Z) : list Z := [z].
@@ -230,6 +231,7 @@ Definition dispatch (model : Z) (ops : list (list Z)) : list (list Z) :=
   | 6 => map run_rewards_op ops
   | 7 => run_states ledger_step ledger_init ops
   | 10 => map run_rlp_op ops
+  | 13 => run_states RewardRule.rewardrule_step RewardRule.rewardrule_init ops
   | _ => map (fun _ => [-1]) ops
   end.
 
